@@ -54,6 +54,7 @@ type Model struct {
 	hoCache       map[*ssa.Function]map[int]bool
 	helperHeld    map[*ssa.Function]lockset
 	wrapperCache  map[*ssa.Function]wrapperInfo
+	relWrapperCache map[*ssa.Function]wrapperInfo
 	docWriteCache []*docWrite
 }
 
